@@ -6,7 +6,7 @@ from vlib.core import qlit
 
 OBLIGATIONS = dict(
     prop_file='Properties/C05.v',
-    glue=['Glue/ScalarGlue.v', 'Glue/Pin_p_fsq_quantize.v', 'Glue/Pin_k_fsq_offset.v', 'Glue/EinopsGlue.v'],
+    glue=['Glue/ScalarGlue.v', 'Glue/Pin_p_fsq_quantize.v', 'Glue/Pin_k_fsq_offset.v', 'Glue/EinopsGlueBase.v', 'Glue/EinopsGlueScalar.v'],
     extra=['Model/Scalar.vo'],
     gen_items=['k_fsq_bound', 'k_fsq_sym_bound', 'k_lfq_quantize', 'k_fsq_offset', 'p_fsq_quantize', 'k_fsq_half_width', 'pr_scalar'],
 )
